@@ -153,10 +153,17 @@ package actor
 //@   ensures deleted-and-tombstoned: has(r.tombstones, key) && !has(r.store, key)
 //@   ensures other-tombstones-kept: forall k string :: old(has(r.tombstones, k)) ==> has(r.tombstones, k)
 
+// a peer's tombstone is recorded whether or not this replica holds the key (it
+// may overtake the delta that creates the key here)
+//@ ghost var tombDecoded bool
 //@ func (*replicatorActor).handleProtoTombstone(r, msg)
 //@   requires repl_t(r)
 //@   preserve replicatorActor.store, replicatorActor.tombstones
+//@   ghost entry tombDecoded = false
+//@   at call 1 of DecodeCRDTKey ghost key = result0
+//@   at call 1 of DecodeCRDTKey ghost tombDecoded = result2 == nil
 //@   ensures invariant: repl_t(r)
+//@   ensures peer-tombstone-always-recorded: tombDecoded ==> has(r.tombstones, key) && !has(r.store, key)
 //@   ensures other-tombstones-kept: forall k string :: old(has(r.tombstones, k)) ==> has(r.tombstones, k)
 
 //@ func (*replicatorActor).handleDelta(r, ctx, msg)
